@@ -567,8 +567,11 @@ class ReleaserInitContinuous(Spec):
             return out
         r, k = z3.Int("row_any"), z3.Int("tick_any")
         stopwin = lambda x: z3.If(rev, row_time(x) >= t["stop_time"], row_time(x) <= t["stop_time"])  # noqa: E731
-        out.append(("C04: discretize is given exactly the file rows not after the stop time - ALL of them, also those with mult 0 (they switch a source off)",
-                    z3.Implies(z3.And(r >= 0, r < nrows), V.to_z3(df.base.pred(r)) == stopwin(r))))
+        before_stop = lambda x: z3.If(rev, row_time(x) > t["stop_time"], row_time(x) < t["stop_time"])  # noqa: E731
+        out.append(("C04: discretize is given every file row before the stop time - ALL of them, also those with mult 0 (they switch a source off)",
+                    z3.Implies(z3.And(r >= 0, r < nrows, before_stop(r)), V.to_z3(df.base.pred(r)))))
+        out.append(("C04: ... and no row after the stop time (a row at exactly the stop time may be passed: no tick reaches it)",
+                    z3.Implies(z3.And(r >= 0, r < nrows, V.to_z3(df.base.pred(r))), stopwin(r))))
         out.append(("C04/C08: ticks counted from the first file time of those rows", V.to_z3(V.s_cmp("==", df.start, df.base.first_time(cx)))))
         out.append(("C04: ticks end at the stop time", V.to_z3(V.s_cmp("==", df.stop, t["stop_time"]))))
         out.append(("C04/C10: tick spacing == the configured release frequency, backwards when time is reversed", V.to_z3(V.s_cmp("==", df.step, z3.If(rev, -a.release_frequency, a.release_frequency)))))
